@@ -9,7 +9,7 @@ Local Open Scope string_scope.
 Definition job_of (ps : pairspec) (n : string) : job :=
   match find_job (ps_jobs ps) n with
   | Some j => j
-  | None => Build_job [] 0 "" "" [] false [] [] [] [] false None None
+  | None => Build_job [] 0 "" "" [] false [] [] [] [] false None None None
   end.
 
 Definition id_oracle : oracle := fun m => m.
